@@ -231,6 +231,25 @@ Print Assumptions C18_record_space_led_run.
 Print Assumptions C18_record_origin.
 Print Assumptions C18_record_expanded.
 Print Assumptions C18_bang_unchanged.
+(** Round 9 (regexgen): the two-bangs test of the model IS the regex of tools::extend_bangbang (three occurrences in
+    the source, checked equal by the generator): equal on every text to the search of the AST regenerated from tools.rs
+    on every run (Gen/ToolsRegexes.v). The same for the copy in Model/Rerender.v. *)
+From Cicada Require Base.Regex Gen.ToolsRegexes Model.Rerender Proofs.BangRegexProofs.
+Theorem C18_bangbang_is_source_regex : forall s,
+  has_bb s = Regex.rx_search Gen.ToolsRegexes.rx_bangbang s /\
+  Rerender.has_bangbang s = Regex.rx_search Gen.ToolsRegexes.rx_bangbang s.
+Proof.
+  intros s. split; [apply Proofs.BangRegexProofs.has_bb_is_source_regex
+                   | apply Proofs.BangRegexProofs.has_bangbang_is_source_regex].
+Qed.
+Check C18_bangbang_is_source_regex : forall s,
+  has_bb s = Regex.rx_search Gen.ToolsRegexes.rx_bangbang s /\
+  Rerender.has_bangbang s = Regex.rx_search Gen.ToolsRegexes.rx_bangbang s.
+Example C18_bangbang_regex_nonvacuous :
+  Regex.rx_search Gen.ToolsRegexes.rx_bangbang [97;33;33]%N = true /\
+  Regex.rx_search Gen.ToolsRegexes.rx_bangbang [33;97;33]%N = false.
+Proof. vm_compute. repeat split. Qed.
+Print Assumptions C18_bangbang_is_source_regex.
 Print Assumptions C18_record_independent.
 Print Assumptions C18_record_first.
 Print Assumptions C18_record_processes.
